@@ -37,6 +37,18 @@ CHECKS = {
         note="A complete report inside the extra input is excluded (indistinguishable); movement/queries before the first render are outside the statement.",
         ref="4/C18",
     ),
+    "C08": dict(
+        technique="Hypothesis model-based history test on a harness-owned schedule (virtual clock, fake select, settrace line injection) against a queue model with validity oracles",
+        text="Exploration over generated interleavings of byte arrivals (up to multi-kilobyte bursts whose 1024-byte read offsets fall inside characters), external reads + unget_bytes, plain/threadsafe/scheduled trigger calls (equal times), SIGINT, clock advances and requests (timeouts 0/0.01/0.5/None) with actions happening inside the blocking select or at the k-th executed line; every result is judged valid/invalid by a queue model, every history is drained and must have delivered everything exactly once.",
+        note="time/select/getpreferredencoding/os.read of curtsies.input are substituted from outside; callbacks fired on the same thread at generated points stand for other threads (argued in DESIGN.md 7); no real pre-emptive interleavings.",
+        ref="4/C08",
+    ),
+    "C12": dict(
+        technique="Hypothesis fault-injection test (exception after every body prefix, SIGINT at generated line numbers) with before/after state equality on a real pty, signal state and a reference terminal",
+        text="Exploration over stacks of 1-2 contexts x options x generated initial tty attributes / file status flags / SIGINT handler / wake-up fd x bodies of 0-6 operations x exit modes (normal, raise after k-th operation, SIGINT at the k-th executed line of a request) on main and worker threads, repeated up to 25x for descriptor counting.",
+        note="tty state is real (pty, termios, fcntl, signal module); terminal content via vf/refterm.py; threadsafe-trigger pipes are owned by their callbacks and closed by the harness before counting.",
+        ref="4/C12",
+    ),
     "C03": dict(
         technique="exhaustive decision-tree enumeration (multiprocessing) + cross-product enumeration + Hypothesis byte-stream generation against an independent tokeniser model",
         text="Exploration, exhaustive on the decoder's ESC-rooted decision tree (every node x every next byte x full in {F,T} x 3 encodings x 3 naming modes), on the valid-UTF-8 prefix tree (quick: <=2-byte prefixes; thorough: all 17.6k prefixes x 256), on table-sequence x next-byte, and (thorough) table x table pairs and all 1,112,064 Unicode scalars; sampled off the valid UTF-8 paths (2^40 leaves) and for multi-read streams.",
